@@ -228,6 +228,50 @@ def run(f, fixture, rep, cfg, tier):
             if c.decl.endswith("Package::sign"):
                 rep.finding("R3", "build_and_sign|unclamped-sign", "build_and_sign calls Package::sign, which uses the current time unclamped", c.loc())
 
+    # the signer stamps the signature with the time it was given - nothing else (key creation time, clock, ...) enters
+    if cfg in ("default", "default+bzip2"):
+        ps = [x for x in f.body_list if x.impl_trait == "rpm::signature::traits::Signing" and x.name == "sign" and "pgp::Signer" in (x.impl_self or "")]
+        if rep.anchor(len(ps) == 1, "R3", "<pgp::Signer as Signing>::sign"):
+            sb_ = ps[0]
+            tsb = TermBuilder(sb_)
+            tname = sb_.local_name(3) or "_3"
+            stamps = []
+            for bb in sb_.reachable():
+                for st in sb_.stmts(bb):
+                    if st["k"] == "assign" and st["rv"]["r"] == "agg" and st["rv"].get("variant") == "SignatureCreationTime":
+                        stamps.append(tsb.term(st["rv"]["ops"][0]))
+
+            def leaves(t, args, calls):
+                k = t[0]
+                if k == "arg":
+                    args.add(t[1])
+                elif k == "call":
+                    calls.add(t[1])
+                    for a in t[2]:
+                        leaves(a, args, calls)
+                elif k in ("agg", "vec", "buf", "phi"):
+                    for a in (t[2] if k == "agg" else t[1]):
+                        leaves(a, args, calls)
+                elif k in ("proj", "cast", "un", "hex", "ser"):
+                    leaves(t[1] if k in ("proj", "hex", "ser") else t[2], args, calls)
+                elif k == "bin":
+                    calls.add("bin:" + t[1])
+                    leaves(t[2], args, calls)
+                    leaves(t[3], args, calls)
+                elif k in ("unknown",):
+                    calls.add("unknown")
+            okst = len(stamps) == 1
+            shown = []
+            for t_ in stamps:
+                a_, c_ = set(), set()
+                leaves(t_, a_, c_)
+                shown.append(render(t_)[:200])
+                # only the time parameter flows in, only through chrono's constructors / plain conversions
+                if not (a_ <= {tname, tname + ".0"} and a_ and all(re.match(r"^(chrono::|std::convert::(Into::into|From::from)$)", x) for x in c_)):
+                    okst = False
+            rep.check(okst, "R3", "pgp-signer|creation-time", "the OpenPGP creation time is the time handed to sign()",
+                      "the signature creation time is %s, not simply the time handed to sign(): it can differ from the (clamped) time the builder chose" % shown, sb_.span)
+
     # ---- R4 ---------------------------------------------------------------------------------
     adt = f.adt("builder::PackageBuilder")
     for fl in adt["variants"][0]["fields"]:
